@@ -38,11 +38,18 @@ static QDomElement el(const QString &tag, const QString &ns) { QDomElement e; vp
 static void attr(QDomElement &e, const QString &n, const QString &v) { vp_dom_set_attr(&e, &n, &v); }
 // The DOM model keeps attributes in slots interned by name; interning every name used by the parsers/serialisers up
 // front (unconditionally) keeps the slot table constant during symbolic execution.
+// see gen_literals.py: every u"..."_s literal of the linked sources is initialised here, on the concrete prefix of the harness
+#include "StringLiterals.h"
+static void warmLiterals()
+{
+#include "c08_literals.inc"
+}
 static void internAttrs()
 {
+    warmLiterals();
     QDomElement e = el(L("x"), QString());
     const QString v;
-    attr(e, L("type"), v); attr(e, L("id"), v); attr(e, L("from"), v); attr(e, L("to"), v); attr(e, L("xml:lang"), v);
+    attr(e, L("type"), v); attr(e, L("id"), v); attr(e, L("from"), v); attr(e, L("to"), v); attr(e, L("xml:lang"), v); attr(e, L("lang"), v);
     attr(e, L("node"), v); attr(e, L("by"), v); attr(e, L("code"), v); attr(e, L("ver"), v); attr(e, L("jid"), v); attr(e, L("xmlns"), v);
 }
 
